@@ -421,3 +421,66 @@ def render(prog, style=None):
     r = Renderer(prog, style)
     text = r.render()
     return text, r
+
+
+# ----------------------------------------------------------------------------------------------------------------------
+# The generator gives every variable of a program its own name, which hides every scoping mistake a compiler can make.
+# reuse_names rewrites the *text* so that the locals of different routines (and the non-shared variables of the main
+# program) draw their names from one small pool: the same spelling then denotes different variables in different routines,
+# exactly where the language's scoping rules keep them apart.  The IR (and therefore RefQB) keeps the unique names.
+_LOCAL_PREFIXES = ('zv', 'za', 'zr', 'zk', 'zi', 'zs', 'zq', 'zc')
+_IDENT_RE = __import__('re').compile(r'"[^"\n]*"|\bz[a-zA-Z]+\d+\b')
+
+
+def reuse_names(text):
+    import re
+    lines = text.split('\n')
+    routine_of = []
+    cur = 0
+    nrt = 0
+    for ln in lines:
+        u = ln.strip().upper()
+        if u.startswith(('SUB ', 'FUNCTION ')):
+            nrt += 1
+            cur = nrt
+        routine_of.append(cur)
+        if u.startswith(('END SUB', 'END FUNCTION')):
+            cur = 0
+    where = {}
+    for ln, rt_ in zip(lines, routine_of):
+        if ln.strip().upper().startswith(('DATA ', "'", 'REM ')):
+            continue
+        for m in _IDENT_RE.finditer(ln):
+            tok = m.group(0)
+            if tok.startswith('"'):
+                continue
+            where.setdefault(tok.lower(), set()).add(rt_)
+    shared = set()
+    for ln in lines:
+        if re.search(r'\bSHARED\b', ln, re.I):
+            shared.update(m.group(0).lower() for m in _IDENT_RE.finditer(ln) if not m.group(0).startswith('"'))
+    mapping = {}     # (routine, name) -> new name
+    counters = {}
+    for name in sorted(where, key=lambda s_: (int(re.search(r'\d+', s_).group(0)), s_)):
+        rts = where[name]
+        if len(rts) != 1 or not name.startswith(_LOCAL_PREFIXES) or name in shared:
+            continue
+        rt_ = next(iter(rts))
+        if rt_ == 0 and name.startswith('zc'):
+            continue            # a module-level CONST is visible everywhere: it keeps its own name
+        counters[rt_] = counters.get(rt_, 0) + 1
+        mapping[(rt_, name)] = f'zn{counters[rt_]}'
+    out = []
+    for ln, rt_ in zip(lines, routine_of):
+        if ln.strip().upper().startswith(('DATA ', "'", 'REM ')):
+            out.append(ln)
+            continue
+
+        def sub(m, rt_=rt_):
+            tok = m.group(0)
+            if tok.startswith('"'):
+                return tok
+            new = mapping.get((rt_, tok.lower()))
+            return new if new is not None else tok
+        out.append(_IDENT_RE.sub(sub, ln))
+    return '\n'.join(out), len(mapping)
